@@ -15,6 +15,21 @@ struct vs_opt_date { bool has; struct vs_opaque v; };
 struct vs_pair_astr { struct vs_astr first, second; };
 struct vs_map { size_t n; struct vs_pair_astr *e; };
 #define MAP_MAX ((size_t)1 << 32)
+/* the jar's two-level map, as far as CookieJar::add uses it: the inner map of ONE name (the one looked up) and what gets inserted */
+struct vs_kv { const char *key_src; size_t key_size; const void *val; };
+struct vs_inner { size_t inserts; const char *last_key_src; size_t last_key_size; const void *last_val; };
+struct vs_outer { bool has_name; struct vs_inner of_name; size_t inserts; const char *last_key_src; size_t last_key_size; struct vs_inner last_val; };
+const char *g_find_src; size_t g_find_size, g_find_calls;
+static inline struct vs_inner *vs_jar_find(struct vs_outer *m, const struct vs_astr *name)
+{
+    g_find_calls++; g_find_src = name->src; g_find_size = name->size;
+    return m->has_name ? &m->of_name : (struct vs_inner *)0;
+}
+static inline void vs_inner_insert(struct vs_inner *m, struct vs_kv kv) { m->inserts++; m->last_key_src = kv.key_src; m->last_key_size = kv.key_size; m->last_val = kv.val; }
+static inline void vs_outer_insert(struct vs_outer *m, struct vs_kv kv)
+{
+    m->inserts++; m->last_key_src = kv.key_src; m->last_key_size = kv.key_size; m->last_val = *(const struct vs_inner *)kv.val;
+}
 /* std::ostream: what is inserted is counted (g_em_n), and the insertion at ONE position g_pos -- any position: g_pos is unconstrained --
    is sampled; the contract says what the insertion at position g_pos must be, hence what every insertion must be.
    A std::string is identified by the address of the object inserted, a literal by its characters. */
@@ -52,6 +67,8 @@ TYPES = {'std::ostream': 'struct vs_ostream', 'std::string': 'struct vs_astr',
          'std::optional<std::string>': 'struct vs_opt_astr', 'std::optional<int>': 'struct vs_opt_int',
          'std::optional<Pistache::Http::FullDate>': 'struct vs_opt_date', 'std::optional<FullDate>': 'struct vs_opt_date',
          'std::map<std::string, std::string>': 'struct vs_map',
+         'std::unordered_map<std::string, std::unordered_map<std::string, Pistache::Http::Cookie>>': 'struct vs_outer', 'std::unordered_map<std::string, Pistache::Http::Cookie>': 'struct vs_inner', 'std::__detail::_Node_iterator<std::pair<std::string, std::unordered_map<std::string, Pistache::Http::Cookie>>, false, true>': 'struct vs_inner *', 'Pistache::Http::CookieJar::Storage::iterator': 'struct vs_inner *', 'Storage::iterator': 'struct vs_inner *', 'Pistache::Http::CookieJar::HashMapCookies': 'struct vs_inner', 'HashMapCookies': 'struct vs_inner',
+         'std::pair<std::string, Pistache::Http::Cookie>': 'struct vs_kv', 'std::pair<std::string, std::unordered_map<std::string, Pistache::Http::Cookie>>': 'struct vs_kv',
          'std::_Rb_tree_const_iterator<std::pair<std::string, std::string>>': 'size_t'}
 STUBS = {
     'operator<<|std::ostream,char': {'expr': '(*VS_OS_LIT(&($0), $1))', 'literal_only': [1]}, 'operator<<|std::ostream,std::string': 'vs_os_str',
@@ -63,6 +80,15 @@ STUBS = {
     'operator*|std::optional<std::string>': {'expr': '(($0).v)'}, 'operator*|std::optional<int>': {'expr': '(($0).v)'},
     'operator*|std::optional<Pistache::Http::FullDate>': {'expr': '(($0).v)'},
     'Pistache::Http::FullDate::write': 'vs_date_write',
+    # CookieJar::Storage = unordered_map<name, unordered_map<value, Cookie>>: what is looked up and what is inserted under which key
+    'ctor:std::string/copy': {'expr': '($0)'},
+    'std::unordered_map<std::string, std::unordered_map<std::string, Pistache::Http::Cookie>>::find': 'vs_jar_find', 'std::unordered_map<std::string, std::unordered_map<std::string, Pistache::Http::Cookie>>::end': {'expr': '((struct vs_inner *)0)'},
+    'operator==|std::__detail::_Node_iterator_base<std::pair<std::string, std::unordered_map<std::string, Pistache::Http::Cookie>>, true>,std::__detail::_Node_iterator_base<std::pair<std::string, std::unordered_map<std::string, Pistache::Http::Cookie>>, true>': {'expr': '(($0) == ($1))'},
+    'ctor:std::unordered_map<std::string, Pistache::Http::Cookie>/0': {'expr': '((struct vs_inner){0})'},
+    'std::unordered_map<std::string, Pistache::Http::Cookie>::insert': 'vs_inner_insert', 'std::unordered_map<std::string, std::unordered_map<std::string, Pistache::Http::Cookie>>::insert': 'vs_outer_insert',
+    'make_pair': {'expr': '((struct vs_kv){ ($0).src, ($0).size, (const void *)&($1) })'},
+    'operator->|std::__detail::_Node_iterator<std::pair<std::string, std::unordered_map<std::string, Pistache::Http::Cookie>>, false, true>': {'expr': '($0)'},
+    'field:std::pair<std::string, std::unordered_map<std::string, Pistache::Http::Cookie>>::second': '(*($))',
     'std::map<std::string, std::string>::empty': {'expr': '(($this)->n == 0)'},
     'operator!=|std::_Rb_tree_const_iterator<std::pair<std::string, std::string>>,std::_Rb_tree_const_iterator<std::pair<std::string, std::string>>': {'expr': '(($0) != ($1))'}, 'operator++|std::_Rb_tree_const_iterator<std::pair<std::string, std::string>>': {'expr': '(++($0))'},
     'operator->|std::_Rb_tree_const_iterator<std::pair<std::string, std::string>>': {'expr': '(&__vs_ext->e[$0])'},
@@ -72,11 +98,12 @@ STUBS = {
 THROWING = []
 ALWAYS_REPLACE = []
 OPAQUE = ['Pistache::Http::FullDate']
-RECORDS = ['Pistache::Http::Cookie']
+RECORDS = ['Pistache::Http::Cookie', 'Pistache::Http::CookieJar']
 EXCEPTIONS = {}
 DEFAULT_RULE = False
 OPAQUE_UNKNOWN = True
 FUNCTIONS = [
+    {'q': 'Pistache::Http::CookieJar::add'},
     {'q': 'Pistache::Http::Cookie::write', 'prologue': 'const struct vs_map *__vs_ext = &this->ext; const struct vs_pair_astr *E = this->ext.e;', 'contract': """
         requires FRESH(this, sizeof(*this)) && FRESH(os, sizeof(*os)) && this->ext.n <= MAP_MAX && FRESH(this->ext.e, this->ext.n * sizeof(struct vs_pair_astr))
         requires g_em_n == 0 && vs_exc == 0
